@@ -194,7 +194,8 @@ def case_helper(case, col=None):
         raise Violation("reduced_units_inexact_exponent", f"to_reduced_units on {m!r} {units} ({nit}) raised DimensionalityError: {r}")
     if s == "err":
         if isinstance(r, AssertionError):
-            raise Violation("helper_raised:AssertionError:ambiguous_unit_name", f"{helper} on {m} {units}: AssertionError in infer_base_unit")
+            amb = sorted(n for n in units if len(R.readings(n)) > 1) or ["?"]
+            raise Violation("helper_raised:AssertionError:ambiguous_unit_name:" + "+".join(amb), f"{helper} on {m} {units}: AssertionError in infer_base_unit (names with several readings: {amb})")
         if isinstance(r, ValueError) and ("inf" in str(r) or "nan" in str(r).lower()):
             raise Skip("non_finite_magnitude_conversion")
         if isinstance(r, (ZeroDivisionError,)):
@@ -361,7 +362,7 @@ def case_special(case, col=None):
     s, r = attempt(lambda: ureg.Quantity(1500, u).to_compact())
     if s == "err":
         if isinstance(r, AssertionError):
-            raise Violation("helper_raised:AssertionError:ambiguous_unit_name", f"Q(1500,{u!r}).to_compact() raised AssertionError (the name also reads as prefix+unit / plural)")
+            raise Violation("helper_raised:AssertionError:ambiguous_unit_name:" + u, f"Q(1500,{u!r}).to_compact() raised AssertionError (the name also reads as prefix+unit / plural)")
         raise Violation(f"helper_raised:compact:{exc_class(r)}", f"{u}: {r!r}")
 
 
